@@ -348,6 +348,43 @@ def r3_8(ctx):
     ctx.floor(rid, n, 3, "generalized_affine_image(lhs, relsym, rhs) implementations")
 
 
+def r3_9(ctx):
+    from pplv import flow
+    rid = "R3.9"
+    ctx.rule(rid, "a bound and its strictness start together: Box::propagate_constraint_no_check derives, for each variable of a constraint, an upper and (for equalities) a lower bound by accumulating into `t_bound` while the local `open` records whether the bound derived so far is strict (it is latched to T_YES by every open end it meets). Each accumulation starts with `assign_r(t_bound, c_inhomogeneous_term, ..)`; between two such starts `open` is re-initialised (`open = T_NO`, or from the kind of the constraint) on every path — otherwise the strictness of the previous bound is stored with the next one and a closed bound of the exact result becomes open")
+    fx = ctx.extract([F.driver_unit("domains.cc", file_re=r"Box_templates\.hh")])
+    n = 0
+    seen = set()
+    for f in fx.functions:
+        if not f.flag("pattern") or not f.cfg or (f.relfile, f.line) in seen:
+            continue
+        seen.add((f.relfile, f.line))
+        starts = []
+        for c in f.calls():
+            if f.call_name(c).lstrip("~") == "assign_r":
+                a = [f.text(f.deref(x)).replace(" ", "") for x in f.call_args(c)]
+                if len(a) >= 2 and a[0] == "t_bound" and "inhomogeneous_term" in a[1]:
+                    starts.append(c)
+        if len(starts) < 2:
+            continue
+
+        def init_open(nod):
+            if nod["k"] != "assign":
+                return False
+            l, r = f.deref(nod["c"][0]), f.deref(nod["c"][1])
+            return l is not None and f.text(l).strip() == "open" and r is not None and f.text(r).strip() != "T_YES"
+        ids = set(s_["i"] for s_ in starts)
+        for s1 in starts:
+            n += 1
+            inst = "%s: accumulation started at line %s" % (f.name, s1.get("l"))
+            p = flow.reachable_between(f, s1, lambda nod, s1=s1: nod["i"] in ids and nod["i"] != s1["i"], blocked=init_open)
+            if p is None:
+                ctx.ok(rid, inst, f.where(s1))
+            else:
+                ctx.violation(rid, inst, f.where(s1), "another accumulation is started on a path that has not re-initialised `open` (%s): the strictness of this bound is carried into the next one" % flow.render_path(f, p))
+    ctx.floor(rid, n, 4, "accumulations of a bound with a strictness flag")
+
+
 def run(ctx):
     ctx.explanation = ("C03 rounding discipline on the instantiated weakly-relational domains (double, int32_t, mpz_class; mpq_class in the thorough tier): who may round "
                        "down, where ROUND_NOT_NEEDED may be used, and the encodings it rests on; decides the discipline, not the case analysis of the transformers")
@@ -363,5 +400,6 @@ def run(ctx):
     r3_6(ctx)
     r3_7(ctx)
     r3_8(ctx)
+    r3_9(ctx)
     dirty.run(ctx, "R3.4", fxb, lambda f: True, 150,
               "judged on Box<Rational_Interval>, BD_Shape<mpq_class>, Octagonal_Shape<mpq_class> and their matrices (found Box::generalized_affine_preimage multiplying by a never-written temporary)")
